@@ -17,7 +17,8 @@ RECS = [B.rec(i + 1, (i, 2, 3, 4), 9, 0x040c000d) for i in range(3)] + [b'\xff' 
 SS, TM, ET, ME = B.STACKSHOT_END, B.TAG_THREADMAP, B.TAG_EVENTS, B.TAG_MORE_EVENTS
 FILL1 = [b'xx', b'', b'x', SS[:5], SS[:15] + SS[:15], TM, b'\0' * 9, b's', ET, ME]
 FILL2 = [b'', TM[:3], ET, b'\0' * 3, SS, b'\x00\x1d', b'\x00' + TM[:1]]
-THREADMAPS = [[(5, 6, 'abc'), (7, 8, 'd')], [], [(5, 6, 'abc')], [(5, 6, 'abc'), (5, 9, 'x'), (1, 6, 'zz')]]
+THREADMAPS = [[(5, 6, 'abc'), (7, 8, 'd')], [], [(5, 6, 'abc')], [(5, 6, 'abc'), (5, 9, 'x'), (1, 6, 'zz')],
+              [(5, 6, b'sh\0iaserverd'), (7, 8, b'ab\0\xff\xfe'), (9, 2 ** 32 - 1, 'n' * 19)]]   # stale bytes after the NUL; extreme pid
 GAPS = [b'', b'\0' * 8, b'gapgapga', ME]
 
 STRINGS = {'hello %d': 1, 'procname': 0, 'sender': 3, 'other': 4}   # the process name sits at string number 0
